@@ -1,4 +1,5 @@
 import PlasVerif.Proofs.LabelsInv
+import PlasVerif.Proofs.ParseEvents
 /-!
 # C09 — Every reference resolves to the object its label names, wherever the label is
 
@@ -275,5 +276,87 @@ theorem stale_own_labels_counterexample :
     let st := runFrom (restoreAll init (demoFiles.flatMap PauxFile.entries)) demoDoc
     st.idref 1 0 = some (.node 99) ∧ st.idref 4 0 = some (.node 11) ∧ st.idref 2 0 = some (.node 98) ∧
     printed st 1 0 = some 2 := by decide
+
+/-! ### which object is current: the event protocol of `Macro.parse` -/
+section ParseProtocol
+open PlasVerif.Model.ParseEvents PlasVerif.Proofs.ParseEvents
+
+/-- a `\section*`-like call with a counter: `\T*{title \label{5} \ref{6}}[opt]{\N7 \label{6}}` -/
+def demoCall : MacroCall :=
+  { node := 1, counter := .named, num := 4, numberedLevel := true,
+    args := [⟨true, false, []⟩, ⟨false, true, [.label 5 none, .ref 1 0 6]⟩, ⟨false, false, []⟩,
+             ⟨false, true, [.numbered 7, .number 7 1, .label 6 none]⟩] }
+
+/-- **A `\label` written in any argument of a numbered macro names that macro** — the title of a
+    sectioning command, a caption, the optional title of a theorem — wherever in the argument list
+    it stands, as long as no nested numbered object precedes it inside the call; and this holds in
+    any document around the call.  (The macro becomes `currentlabel` before the first argument
+    with content is read; `Macro.parse` with any signature, starred or not.) -/
+theorem label_in_argument_names_the_macro (m : MacroCall) (hc : m.counter ≠ .none)
+    (hmod : ∀ a ∈ m.args, a.isModifier = true → a.content = [])
+    (before after c1 c2 : List Op) (l : Label) (h0 : l ≠ 0)
+    (hsplit : contents m.args = c1 ++ .label l none :: c2)
+    (hnum : ∀ op ∈ c1, isNumbered op = false)
+    (hl : LabelsDistinct (before ++ parse m ++ after)) :
+    attach (before ++ parse m ++ after) l = some m.node ∧
+    (run (before ++ parse m ++ after)).labels l = some m.node := by
+  have e : before ++ parse m ++ after =
+      before ++ .numbered m.node :: c1 ++ .label l none ::
+        (c2 ++ postParse m.node (finalCtr m) m.num m.numberedLevel ++ after) := by
+    rw [parse_countered m hc hmod, hsplit]; simp
+  rw [e] at hl ⊢
+  have := label_after_section_attaches_to_it before c1
+    (c2 ++ postParse m.node (finalCtr m) m.num m.numberedLevel ++ after) m.node l h0 hl hnum
+  exact ⟨this.2, this.1⟩
+
+example : (run ([.numbered 90, .ref 2 0 5] ++ parse demoCall ++ [.ref 3 0 5])).labels 5 = some 1 ∧
+    (run ([.numbered 90, .ref 2 0 5] ++ parse demoCall ++ [.ref 3 0 5])).idref 2 0 = some (.node 1) ∧
+    (run (parse demoCall)).labels 6 = some 7 := by decide
+
+/-- A label directly after a numbered macro call (any signature) names it too: nothing after the
+    first argument makes another object current except nested numbered objects in the arguments. -/
+theorem label_after_call_names_the_macro (m : MacroCall) (hc : m.counter ≠ .none)
+    (hmod : ∀ a ∈ m.args, a.isModifier = true → a.content = [])
+    (hnum : ∀ op ∈ contents m.args, isNumbered op = false)
+    (before after : List Op) (l : Label) (h0 : l ≠ 0)
+    (hl : LabelsDistinct (before ++ parse m ++ .label l none :: after)) :
+    attach (before ++ parse m ++ .label l none :: after) l = some m.node := by
+  have e : before ++ parse m ++ .label l none :: after =
+      before ++ .numbered m.node :: (contents m.args ++ postParse m.node (finalCtr m) m.num m.numberedLevel)
+        ++ .label l none :: after := by
+    rw [parse_countered m hc hmod]
+  rw [e] at hl ⊢
+  refine (label_after_section_attaches_to_it before _ after m.node l h0 hl ?_).2
+  intro op hop
+  rcases List.mem_append.1 hop with h | h
+  · exact hnum op h
+  · unfold postParse at h; split at h
+    · have : op = .number m.node m.num := by simpa using h
+      rw [this]; rfl
+    · cases h
+
+example : attach (parse { demoCall with args := [⟨false, true, [.ref 1 0 6]⟩] } ++ [.label 9 none]) 9 = some 1 := by decide
+
+/-- The starred form (`\section*{…}`) is the current object but gets no number: a `\label` after it
+    resolves to an object that prints nothing. -/
+theorem starred_macro_is_current_and_unnumbered (m : MacroCall) (as : List Arg)
+    (hargs : m.args = ⟨true, true, []⟩ :: as) :
+    parse m = .numbered m.node :: contents as :=
+  parse_starred m as hargs
+
+example : parse { demoCall with args := [⟨true, true, []⟩, ⟨false, true, [.label 5 none]⟩] }
+    = [.numbered 1, .label 5 none] := by decide
+
+/-- A macro without counter never becomes the current object: labels in and after it keep naming
+    the enclosing numbered object. -/
+theorem uncountered_macro_is_transparent (m : MacroCall) (hc : m.counter = .none)
+    (hstar : ∀ a as, m.args = a :: as → ¬ (a.isModifier = true ∧ a.given = true)) :
+    parse m = contents m.args :=
+  parse_uncountered m hc hstar
+
+example : parse { demoCall with counter := .none } = [.label 5 none, .ref 1 0 6, .numbered 7, .number 7 1, .label 6 none] := by
+  decide
+
+end ParseProtocol
 
 end PlasVerif.Properties.C09
